@@ -4,10 +4,10 @@ import json, os, sys
 
 CHECKS = {
  "C01": dict(level="model_checking", design="§4 C01", technique="explicit-state BFS over call histories on the real MemFS/OrefaFS, Linux kernel (OsFS on tmpfs) as step-by-step oracle",
-   text="Every history of <= 2 (quick) / <= 3 (thorough) namespace calls from a ~470-call alphabet over a 2-3 name, depth-2 universe is executed on a fresh real MemFS / OrefaFS and in lock-step through OsFS on tmpfs; outcome (errno) of every call and the full tree after every call are compared; states are deduplicated on the kernel-side tree. Exhaustive within the bound, which is what the property's bounded clause asks for.",
+   text="Every history of <= 3 namespace calls from a ~490-call (quick) / ~1500-call (thorough: three names, all 48 open-flag sets) alphabet over a depth-2 universe whose names include a strict prefix pair (a, ab), from the empty directory and from a small tree, is executed on a fresh real MemFS / OrefaFS and in lock-step through OsFS on tmpfs; outcome (errno) of every call and the full tree after every call are compared; states are deduplicated on the kernel-side tree. Exhaustive within the bound, which is what the property's bounded clause asks for.",
    note="Trusts: Linux 6.x tmpfs as root, Go os package, the overlay transformations (sync shim, ordered map ranges, nextRandom seam). Directory size/nlink not compared. Long random histories (clause ii) not run."),
  "C03": dict(level="model_checking", design="§4 C03", technique="exhaustive enumeration of (owner, group, mode) configurations x acting users x umasks x calls on the real MemFS, Linux kernel under setfsuid/setfsgid as oracle",
-   text="Every assignment from a covering set of owners, groups and permission bits (incl. sticky/setgid) to the <= 2 (quick) / <= 3 (thorough) nodes on the path(s) of a call, every acting user class, 5 umasks and all path-taking calls (plus File.Chmod/Chown/Truncate/Write/ReadDir) is built by an administrator history on a fresh MemFS and on tmpfs, and the one call under test is compared: allowed/refused, errno, and for created objects the statement's formula (calling uid/gid, perm &^ umask).",
+   text="Every assignment from a covering set of owners, groups and permission bits (incl. sticky/setgid) to the <= 2 (quick) / <= 3 (thorough) nodes on the path(s) of a call, every acting user class, 5 umasks and all path-taking calls (plus File.Chmod/Chown/Truncate/Write/ReadDir) is built by an administrator history on a fresh MemFS and on tmpfs, and the one call under test is compared: allowed/refused, errno, and for created objects the statement's formula (calling uid/gid, perm &^ umask); after a RemoveAll refused on both sides every entry that is gone must have been removable by the caller. A concurrent part runs every ordered pair of permission-sensitive templates as two threads acting for two different users under every schedule with <= 2/3 preemptions (oracle: results and final node graph, owners and modes included, equal a sequential order).",
    note="Kernel decisions taken on a thread with unshare(CLONE_FS) and raw setfsuid/setfsgid, supplementary groups empty; fs.protected_hardlinks policy cases are skipped; created-object owner/mode judged by the statement's formula, not by setgid-directory kernel rules."),
  "C06": dict(level="model_checking", design="§3 Engine B, §4 C06", technique="stateless DFS over thread interleavings (controlled scheduler at lock-acquisition granularity, iterative preemption bounding) of the real MemFS/OrefaFS; oracle: some sequential order of the same primitive calls, respecting real-time order",
    text="All unordered pairs (quick) plus triples and 2x2 programs (thorough) of ~35 call templates on colliding names are run under every schedule with <= 2 (quick) / <= 3 (thorough) preemptions; results and final tree of every schedule must equal those of a sequential permutation of the same primitive steps consistent with the observed real-time order; final states also pass the node-graph invariants; temp names must be distinct.",
@@ -28,25 +28,25 @@ CHECKS = {
    text="All link graphs with 2 (quick) / 3 (thorough) links over 18 target shapes and 2 placements, all query paths of <= 3 / <= 4 components (absolute, plus relative to two working directories), 18 calls (read-only ones on a shared configuration, mutating ones on a fresh copy followed by a whole-tree comparison), and chains of 1..70 links; each disagreement is additionally classified by asking the kernel the lexically normalised question.",
    note="Oracle = Linux 6.x tmpfs and filepath.EvalSymlinks of go1.23.5; Readlink compared after Clean, as the statement says."),
  "C07": dict(level="model_checking", design="§4 C07", technique="exhaustive enumeration of every exported method (by reflection) x adversarial argument domains x reachable states on every file-system type, plus deadlock/panic detection on every schedule of the concurrent programs under the controlled scheduler",
-   text="Sequential: every method of avfs.VFS, File, IdentityMgr, VolumeManager and the generic helpers on 12 Linux-typed and 5 Windows-typed targets, argument tuples from per-type adversarial domains, 9 handle kinds incl. nil, closed and returned-with-error handles, pre-states of depth <= 1/2; outcome must not be PANIC, DEADLOCK (decided by the sync shim), HANG or FATAL. Concurrent: all schedules (bound 2/3) of all pairs of ~38 templates plus lock-order programs; a deadlock is 'no enabled thread', decided by the scheduler.",
+   text="Sequential: every method of avfs.VFS, File, IdentityMgr, VolumeManager and the generic helpers on 12 Linux-typed and 5 Windows-typed targets, argument tuples from per-type adversarial domains, 9 handle kinds incl. nil, closed and returned-with-error handles, pre-states of depth <= 1/2; outcome must not be PANIC, DEADLOCK (decided by the sync shim), HANG or FATAL. Concurrent: all schedules (bound 2/3) of all pairs of ~43 templates, lock-order programs, the shared-handle and two-handle programs of C08, and all pairs of MemIdm calls; a deadlock is 'no enabled thread', decided by the scheduler. Directory-listing protocol: every sequence of <= 4/5 ReadDir(n)/Readdirnames(n)/Create/Remove steps on one directory handle. The part of plan building that calls the code under test runs in a watched subprocess.",
    note="Caller's-fault inputs are excluded and listed in the evidence (nil callbacks, nil users, foreign FileInfo for ToSysStat, sizes > 1 MiB for Truncate/WriteAt on in-memory file systems). Name on a nil handle is the sanctioned panic."),
  "C09": dict(level="model_checking", design="§4 C09", technique="explicit-state BFS over histories of every VFS/File method (by reflection) through RoFS and every object it hands out; base snapshot around every call, twin base for read results",
    text="All histories <= 2 (quick) / <= 3 (thorough) of ~1700 / ~5300 calls (every method, all 48 open-flag sets, pooled files, pooled Sub file systems, DirEntry/FileInfo values) on RoFS over MemFS and OrefaFS: base tree, contents, modes, owners and mtimes identical before and after every call; mutating calls refused with a permission-class error; read-only calls equal to the same call on a twin base.",
    note="cwd/umask/user of the base (forwarded by RoFS) are recorded, not judged. O_RDONLY|O_EXCL is treated as unspecified."),
  "C12": dict(level="fault_enumeration", design="§4 C12", technique="explicit-state BFS in lock-step with a twin base (no failure function / always-nil / read-only function) + exhaustive single-fault enumeration over the recorded consultation trace of every history",
-   text="(i) FailFS without failure function and with an always-nil one is compared call by call and tree by tree with a twin base over all histories <= 2/3 of ~760 calls incl. pooled files and Sub file systems; (ii) for every history <= 2/3 every plan 'consultation k returns E' (2 errors) is run: primitives must return exactly E, composites a non-nil error, the base must be untouched by the failed call, every method must consult its own id before any effect, and every FnVFS id must occur in some trace; (iii) with ReadOnlyFunc the base (incl. mtimes) never changes.",
+   text="(i) FailFS without failure function and with an always-nil one is compared call by call and tree by tree with a twin base over all histories <= 2/3 of ~760 calls incl. pooled files and Sub file systems; (ii) for every history <= 2/3 every plan 'consultation k returns E' (3 errors: a private sentinel, a permission error, an fs.ErrNotExist-kind error) is run, in lock-step with a twin base that skips the failed call, and handle programmes 'open; [pre]; F fails; G; Close' continue on the same handle after every injected File failure: primitives must return exactly E, composites a non-nil error, the base must be untouched by the failed call, every method must consult its own id before any effect, and every FnVFS id must occur in some trace; (iii) with ReadOnlyFunc the base (incl. mtimes) never changes, also for O_RDONLY combined with O_TRUNC/O_CREATE/O_APPEND; (iv) two threads on one FailFS with ReadOnlyFunc, entering the failure function being a scheduling point: every schedule with <= 2/3 preemptions of every ordered pair of 10 calls, each call answers what it answers alone and the base is unchanged.",
    note="FnWriteFile is unreachable from the API (WriteFile is built on OpenFile/Write/Close) and listed as such. Single fault per run."),
  "C13": dict(level="exploration", design="§4 C13", technique="exhaustive enumeration of all strings (and pairs/triples) up to a length bound over a 13-symbol alphabet, both OS types, against path/filepath (Linux) and a mechanically retargeted copy of the toolchain's Windows path/filepath (validated on the toolchain's own test tables)",
-   text="Clean, Split, Dir, Base, IsAbs, FromSlash, ToSlash, VolumeName, Join, Rel, Abs (Linux), Match and PathIterator (Next/Part/Left/Right/ReplacePart) on every string <= 5 (quick) / <= 6 (thorough), pairs <= 3 / 4, Match patterns <= 4 / 5 x names <= 3, plus a dictionary of volume-shaped prefixes; equality of results and of error-ness; a panic is a violation.",
+   text="Clean, Split, Dir, Base, IsAbs, FromSlash, ToSlash, VolumeName, Join, Rel, Abs (Linux), Match and PathIterator (Next/Part/Left/Right/ReplacePart) on every string <= 5 (quick) / <= 6 (thorough), pairs <= 3 / 4, Match patterns <= 4 / 5 x names <= 3, plus a dictionary of volume-shaped prefixes, all pairs of paths built from letters whose two cases fold together (incl. those of different UTF-8 length), and Match patterns over class syntax with U+FFFD, an invalid byte and 3-/4-byte runes; equality of results and of error-ness; a panic is a violation.",
    note="Built with -tags avfs_setostype. Abs for Windows not decided (Win32 API). Rel on argument pairs for which Go's own Windows Rel does not terminate is skipped (reference defect). Inputs longer than the bound are not covered (the fuzzing clause is sampling)."),
  "C10": dict(level="model_checking", design="§4 C10", technique="explicit-state BFS over histories whose alphabet is every path string up to a length over {a,f,secret,top,b,.,..} x every path-taking call, on the real BasePathFS in lock-step with a standalone reference file system holding the base directory's content; snapshot of everything outside the base directory around every call",
-   text="Level 1: all strings of <= 3 (quick) / <= 4 (thorough) segments, absolute and relative, three spellings, x 23 calls (incl. handle and Chdir/Getwd compounds) plus a 30-string core squared for Rename/Link/Symlink; level 2 (3 in thorough): relative and dot-dot strings after a first call. Oracle: nothing outside the base directory changes or is read, outcome and tree of the base directory equal those of the standalone reference, every returned or error-embedded path names the same virtual location as the reference's and never carries the base prefix.",
+   text="Level 1: all strings of <= 3 (quick) / <= 4 (thorough) segments, absolute and relative, three spellings, x 23 calls (incl. handle and Chdir/Getwd compounds) plus a 30-string core squared for Rename/Link/Symlink; level 2 (3 in thorough): relative and dot-dot strings after a first call. The alphabet also moves the BASE's own working directory (inside B, B itself, a sibling whose name extends B's, unrelated directories), and issues every call and symbolic-link creations through the views returned by Sub. Oracle: nothing outside the base directory changes or is read, outcome and tree of the base directory equal those of the standalone reference, every returned or error-embedded path names the same virtual location as the reference's and never carries the base prefix.",
    note="Paths are compared after normalising both sides to the absolute cleaned virtual form (spelling-only differences are counted, not judged). OrefaFS's own inability to address its root is informational (the reference is wrong there, not the wrapper)."),
  "C05": dict(level="model_checking", design="§4 C05", technique="explicit-state BFS over call histories incl. invalid/aliased operands; injected node-graph invariant checker + public-API walk + frame conditions after every call",
-   text="Every history of <= 2 (quick) / <= 3 (thorough) calls from a ~430-call alphabet that includes root, empty, relative, ancestor/descendant and identical operands, on MemFS and OrefaFS (Linux- and Windows-typed), with structural invariants (single parent per directory, stored link counters = directory entries, OrefaFS index = reachable paths), ReadDir/Lstat agreement, Nlink/SameFile agreement and frame conditions checked after every call.",
+   text="Every history of <= 3 calls from a ~500-call (quick) / ~800-call (thorough) alphabet that includes root, empty, relative, ancestor/descendant and identical operands, a strict prefix pair of names, a path in which a directory's path recurs, and creations through a fresh Sub view, on MemFS and OrefaFS (Linux- and Windows-typed), with structural invariants (single parent per directory, stored link counters = directory entries, OrefaFS index = reachable paths), unique file identities, ReadDir/Lstat agreement, Nlink/SameFile agreement and frame conditions checked after every call; the final state of every schedule (<= 2/3 preemptions) of the C06 pair programs must satisfy the same invariants.",
    note="Trusts the injected read-only checker (hooks/*/verif_hooks.go) and the generous definition of 'entries a call names' (operands, what they resolve to, their subtrees and hard-link classes)."),
  "C15": dict(level="model_checking", design="§4 C15", technique="explicit-state BFS of MemIdm call histories against a reference model + exhaustive schedule enumeration (controlled scheduler, preemption bound) with brute-force and porcupine linearizability judges",
-   text="All histories of <= 5 (quick) / <= 7 (thorough) of the 8 MemIdm calls over 3+3 names are executed on the real MemIdm and compared step by step with a two-map reference model (by-name/by-id agreement, uniqueness, never-reassigned ids, error types, IsAdmin); all interleavings of 2-3 threads x 1-2 calls at lock granularity (bound 2/3) are checked for linearizability against the same model.",
+   text="All histories of <= 5 (quick) / <= 7 (thorough) of the 8 MemIdm calls over 3+3 names are executed on the real MemIdm (twice: with the Linux and with the Windows names of the administrator) and compared step by step with a two-map reference model (by-name/by-id agreement, uniqueness, never-reassigned ids, error types, IsAdmin); all interleavings of 2-3 threads x 1-2 calls at lock granularity (bound 2/3) are checked for linearizability against the same model.",
    note="Trusts the reference model (cmd/c15/model.go), the scheduler's RWMutex model, porcupine v1.3.0."),
  "C16": dict(level="fault_enumeration", design="§4 C16", technique="exhaustive single-fault enumeration through FailFS on either side of CopyFile/CopyFileHash/HashFile",
    text="For sizes around the 32 KiB buffer boundary and all pairs of library file systems, the fault-free consultation trace is recorded and every single-fault plan 'consultation k fails' is re-run on fresh instances: a listed primitive failing must yield a non-nil error, and whenever nil is returned bytes, permission bits and digest must match.",
